@@ -40,7 +40,7 @@ RowDiff(s) == LET D == {i \in DOMAIN s.rows : s.rows[i] # Tr.orig.rows[i]} IN IF
 PFail(clause, path, f, extra) ==
   PrintT(ToJson([tag |-> "P-FAIL", tid |-> tid, l |-> l, clause |-> clause, path |-> path, followup |-> f, extra |-> extra,
                  ident |-> IF LastOk > 0 THEN Tr.steps[LastOk].ident ELSE "-",
-                 identloss |-> Cause(IdentLost), regchg |-> Cause(RegChanged), usyschg |-> Cause(UsysChanged), idchg |-> Cause(IdChanged), sharechg |-> Cause(ShareLost)]))
+                 identloss |-> Cause(IdentLost), regchg |-> Cause(RegChanged), usyschg |-> Cause(UsysChanged), idchg |-> Cause(IdChanged), sharechg |-> Cause(ShareLost), unitchg |-> Cause(UnitChanged)]))
 
 (* ---- a persistence step ---- *)
 PathStep ==
@@ -49,14 +49,17 @@ PathStep ==
       model == PathEffect(p, st, obj)
       \* not transcribed (taken from the observation): which dimension object a re-parse finds in a table that mixes
       \* singletons and copies, and whether deep-copied COMPOUND dimensions are shared with the table
+      \* (out-of-sync unit, .copy() after a path that rebuilt the registry: whether the travelling memo holds the name is not transcribed)
+      loose2 == obj.sync # "insync" /\ p = "dot_copy" /\ st.regnew
       loose == \/ PClass(p) \in {"strrt", "string"} /\ st.lutmixed
+               \/ loose2
                \/ PClass(p) \in {"deepcopy", "unitdeep"} /\ ~Atomic(obj.unit)
                \/ st.lutmixed /\ ~Atomic(obj.unit)
                \/ PClass(p) = "copy" /\ ~Atomic(obj.unit)
       tok == IF s.k = "ok"
              THEN /\ model.alive /\ model.cls = s.cls /\ model.usys = s.usys
                   /\ loose \/ (model.ident = s.ident /\ model.dimshared = s.dimshared)
-                  /\ model.lutkept = RegSame(s) /\ model.idkept = s.idsame /\ model.unitkept = ~UnitChanged(s)
+                  /\ model.lutkept = RegSame(s) /\ model.idkept = s.idsame /\ (loose2 \/ model.unitkept = ~UnitChanged(s))
              ELSE ~model.alive
       synced == IF s.k = "ok"
                 THEN [model EXCEPT !.alive = TRUE, !.cls = s.cls, !.ident = s.ident, !.usys = s.usys, !.lutkept = RegSame(s), !.idkept = s.idsame, !.dimshared = s.dimshared, !.unitkept = ~UnitChanged(s)]
@@ -76,6 +79,11 @@ PathStep ==
   /\ UNCHANGED <<phase, obj, fups, order>>
 
 (* ---- a follow-up step ---- *)
+\* not demanded (and not transcribed): WHICH of the two units of the same name - the one the object carries or the table's - a
+\* conversion of an out-of-sync object into the registry's code unit system is expressed in.  Both results describe the same
+\* physical quantity; which one comes out depends on whether the registry's string memo holds the name (Unit.copy()), and a
+\* rebuilt registry starts with an empty memo
+StaleCode(f) == obj.sync # "insync" /\ f \in {"in_code", "base_equiv_code"}
 FollowStep ==
   LET j == l - NP - 1
       f == Tr.fups[j]
@@ -89,17 +97,20 @@ FollowStep ==
   \* (singleton or copy) it saw first, so whether the guard fires depends on what ran before
   \* (also not transcribed: list_same_dimensions of an angle unit in a registry that got the removed rad back - the list is
   \* built by identity and by presence at once)
+  \* (objects out of sync with their registry: not transcribed once the unit changed scale - refusals of offset units hide the
+  \* change - nor for the conversions into the code system, see StaleCode)
   /\ (~(f = "mul_self" /\ UnitRow(obj.unit).dim = "logarithmic") /\ ~(f = "list_same" /\ obj.reg = "customrm" /\ UnitRow(obj.unit).dim = "angle")
+        /\ ~(obj.sync # "insync" /\ (~st.unitkept \/ StaleCode(f)))
         /\ ~(RestSame(f, obj, st, order) = rs /\ OrigSame(f, obj, st, order) = os))
        => PrintT(ToJson([tag |-> "T-FAIL", tid |-> tid, l |-> l, op |-> "follow:" \o f,
                          model |-> [rest |-> RestSame(f, obj, st, order), orig |-> OrigSame(f, obj, st, order)], observed |-> [rest |-> rs, orig |-> os]]))
-  /\ (f \notin NotDemanded /\ ~rs) => PFail("follow_rest", "", f, part(fo.rest))
-  /\ (f \notin NotDemanded /\ ~os) => PFail("follow_orig", "", f, part(fo.orig))
+  /\ (f \notin NotDemanded /\ ~StaleCode(f) /\ ~rs) => PFail("follow_rest", "", f, part(fo.rest))
+  /\ (f \notin NotDemanded /\ ~StaleCode(f) /\ ~os) => PFail("follow_orig", "", f, part(fo.orig))
   /\ UNCHANGED <<phase, obj, chain, st, order>>
 
 TraceNext ==
   /\ tid <= Len(Traces)
-  /\ \/ /\ l = 0 /\ Build(Tr.cls, Tr.reg, Tr.unit, Tr.pre, Tr.memo) /\ l' = 1 /\ tid' = tid
+  /\ \/ /\ l = 0 /\ Build(Tr.cls, Tr.reg, Tr.unit, Tr.pre, Tr.memo, Tr.sync) /\ l' = 1 /\ tid' = tid
      \/ /\ l >= 1 /\ l <= NP /\ PathStep /\ l' = l + 1 /\ tid' = tid
      \/ /\ l = NP + 1 /\ phase' = "follow" /\ order' = Tr.order /\ UNCHANGED <<obj, chain, st, fups>> /\ l' = l + 1 /\ tid' = tid
      \/ /\ l >= NP + 2 /\ l <= NP + 1 + NF /\ FollowStep /\ l' = l + 1 /\ tid' = tid
